@@ -7,7 +7,9 @@ Scenarios == <<
   << <<"add", "a">>, <<"rem", "a">>, <<"proc", "a", "m1">> >>,
   << <<"add", "a">>, <<"add", "a">>, <<"rem", "a">> >>,
   << <<"add", "a">>, <<"add", "b">>, <<"proc", "a", "m1">> >>,
-  << <<"rem", "a">>, <<"add", "a">>, <<"proc", "a", "m1">>, <<"add", "a">> >> >>
+  << <<"rem", "a">>, <<"add", "a">>, <<"proc", "a", "m1">>, <<"add", "a">> >>,
+  << <<"add", "a">>, <<"add", "b">>, <<"proc", "*", "m1">>, <<"read", "a">> >>,
+  << <<"add", "a">>, <<"proc", "a", "m1">>, <<"read", "a">>, <<"rem", "a">> >> >>
 OpsOf == Scenarios[Scenario]
 \* export every complete behaviour's schedule (collected in a TLC register, written at the end)
 Collect == AllDone => TLCSet(1, TLCGet(1) \cup {sched})
